@@ -25,7 +25,13 @@ import (
 	"context"
 	"encoding/json"
 	"fmt"
+	"go/ast"
+	"go/parser"
+	"go/token"
+	"io"
+	"net"
 	"os"
+	"path/filepath"
 	"strings"
 	"sync"
 	"time"
@@ -33,6 +39,8 @@ import (
 
 	"github.com/alicebob/miniredis/v2"
 
+	"tunnox-core/internal/cloud/models"
+	"tunnox-core/internal/core/idgen"
 	corelog "tunnox-core/internal/core/log"
 	"tunnox-core/internal/core/storage"
 	"tunnox-core/internal/core/storage/hybrid"
@@ -74,7 +82,10 @@ type caseIn struct {
 	TTLms   int64  `json:"ttl_ms"`
 	Nodes   int    `json:"nodes"`
 	Ops     []opIn `json:"ops"`
-	Stream  string `json:"stream,omitempty"` // "valid" | "invalid_utf8" | "probe"
+	Stream  string `json:"stream,omitempty"` // "valid" | "invalid_utf8" | "probe" | "bridge"
+	// bridge stream: how the tunnel started by the REAL startSourceBridge ends; Rec gives the mapping and the tunnel id
+	Way string `json:"way,omitempty"` // abort | cancel | complete | duplicate | restart | timeout
+	Rec *recIn `json:"rec,omitempty"`
 }
 
 type recOut struct {
@@ -155,7 +166,25 @@ type world struct {
 	virtual bool // the shared backend's TTL clock is miniredis' virtual clock
 	never   bool // the backend never expires by itself
 	split   bool // nodes do not share a store
+	mems    []*memory.Storage
 	closers []func()
+}
+
+// newMem: a memory.Storage whose deadlines the harness can move (VerifAdvance)
+func (w *world) newMem(ctx context.Context) *memory.Storage {
+	m := memory.New(ctx)
+	w.mems = append(w.mems, m)
+	return m
+}
+
+// advance lets d of backend time pass on every backend of the world (miniredis.FastForward / memory VerifAdvance)
+func (w *world) advance(d time.Duration) {
+	if w.mr != nil {
+		w.mr.FastForward(d)
+	}
+	for _, m := range w.mems {
+		m.VerifAdvance(d)
+	}
 }
 
 func (w *world) close() {
@@ -180,7 +209,7 @@ func newWorld(c caseIn) *world {
 	}
 	switch c.Backend {
 	case "memory", "lazy", "mapshape":
-		var st storage.Storage = memory.New(ctx)
+		var st storage.Storage = w.newMem(ctx)
 		if c.Backend == "lazy" {
 			st = lazyStore{st}
 			w.never = true
@@ -206,12 +235,12 @@ func newWorld(c caseIn) *world {
 		w.mr, w.virtual = mr, true
 		w.closers = append(w.closers, mr.Close)
 		for i := 0; i < n; i++ {
-			h := hybrid.NewWithSharedCache(ctx, memory.New(ctx), newRedis().(*rstore.Storage), nil, nil)
+			h := hybrid.NewWithSharedCache(ctx, w.newMem(ctx), newRedis().(*rstore.Storage), nil, nil)
 			w.stores = append(w.stores, h)
 		}
 	case "hybridone":
 		// the single-process default: one hybrid storage without shared cache, all tables on it
-		h := hybrid.New(ctx, memory.New(ctx), nil, nil)
+		h := hybrid.New(ctx, w.newMem(ctx), nil, nil)
 		for i := 0; i < n; i++ {
 			w.stores = append(w.stores, h)
 		}
@@ -219,7 +248,7 @@ func newWorld(c caseIn) *world {
 		// several nodes each with the default storage and NO shared cache: nothing is shared
 		w.split = true
 		for i := 0; i < n; i++ {
-			w.stores = append(w.stores, hybrid.New(ctx, memory.New(ctx), nil, nil))
+			w.stores = append(w.stores, hybrid.New(ctx, w.newMem(ctx), nil, nil))
 		}
 	default:
 		panic("unknown backend " + c.Backend)
@@ -248,9 +277,11 @@ type regInfo struct {
 }
 
 type addrInfo struct {
-	addr string
-	node int
-	ff   time.Duration
+	addr   string
+	node   int
+	ff     time.Duration // backend time advanced since the latest RegisterNodeAddress
+	t0, t1 int64         // clock readings around the latest RegisterNodeAddress
+	n      int           // how many times it was registered
 }
 
 func toState(r *recIn) *tunnel.WaitingState {
@@ -334,14 +365,12 @@ func runCase(c caseIn) *caseOut {
 		case "ff":
 			oo.T0 = since()
 			d := time.Duration(o.D) * time.Millisecond
-			if w.mr != nil {
-				w.mr.FastForward(d)
-				for _, ri := range cur {
-					ri.ff += d
-				}
-				for _, ai := range addrs {
-					ai.ff += d
-				}
+			w.advance(d)
+			for _, ri := range cur {
+				ri.ff += d
+			}
+			for _, ai := range addrs {
+				ai.ff += d
 			}
 			oo.T1, oo.Res = since(), "ok"
 		case "reg":
@@ -483,11 +512,16 @@ func runCase(c caseIn) *caseOut {
 			} else {
 				realLive := oo.T1+epsNs <= ri.expires
 				realDead := oo.T0-epsNs > ri.expires
-				backLive, backDead := realLive, false
+				var backLive, backDead bool
 				if w.virtual {
 					backLive, backDead = ri.ff < ttl, ri.ff > ttl
 				} else if w.never {
 					backLive = true
+				} else {
+					// memory.Storage: its clock is the real clock plus what was advanced; its deadline was taken
+					// at most regDur after CreatedAt
+					backLive = time.Duration(oo.T1+epsNs-ri.created)+ri.ff < ttl
+					backDead = time.Duration(oo.T0-epsNs-ri.created-ri.regDur)+ri.ff > ttl
 				}
 				mustOK = realLive && backLive
 				mustGone = realDead || backDead
@@ -541,7 +575,12 @@ func runCase(c caseIn) *caseOut {
 				break
 			}
 			oo.Res = "ok"
-			addrs[ck(node, id)] = &addrInfo{addr: addr, node: node}
+			// every RegisterNodeAddress (first or refresh, same or new address, any node) restarts the 24 h
+			prev := addrs[ck(node, id)]
+			addrs[ck(node, id)] = &addrInfo{addr: addr, node: node, t0: oo.T0, t1: oo.T1, n: 1}
+			if prev != nil {
+				addrs[ck(node, id)].n = prev.n + 1
+			}
 			if _, seen := out.Shapes["addr"]; !seen {
 				if v, err := w.stores[node].Get("tunnox:node:" + id + ":addr"); err == nil {
 					out.Shapes["addr"] = fmt.Sprintf("%T", v)
@@ -563,14 +602,30 @@ func runCase(c caseIn) *caseOut {
 			ai := addrs[ck(node, id)]
 			known := ai != nil
 			addrTTL := tunnel.NodeAddressTTL
+			var live, dead bool
+			if known {
+				switch {
+				case w.virtual:
+					live, dead = ai.ff < addrTTL, ai.ff > addrTTL
+				case w.never:
+					live = true
+				default:
+					live = time.Duration(oo.T1+epsNs-ai.t0)+ai.ff < addrTTL
+					dead = time.Duration(oo.T0-epsNs-ai.t1)+ai.ff > addrTTL
+				}
+			}
 			switch {
-			case known && w.virtual && ai.ff == addrTTL:
+			case known && !live && !dead:
 				oo.Amb = true
 				out.Amb++
-			case known && ai.addr != "" && !(w.virtual && ai.ff > addrTTL):
+			case known && ai.addr != "" && live:
 				out.Judged++
 				if oo.Res != "ok" || a != ai.addr {
-					fail(i, "node-address", fmt.Sprintf("op #%d on %s: GetNodeAddress(%s) from node %d = %s %s, registered %s by node %d", i, c.Backend, short(id), node, oo.Res, short(a), short(ai.addr), ai.node))
+					key := "node-address"
+					if ai.n > 1 && oo.Res != "ok" {
+						key = "node-address-refresh-not-kept-alive"
+					}
+					fail(i, key, fmt.Sprintf("op #%d on %s: GetNodeAddress(%s) from node %d = %s %s; %s was registered by node %d (%d registrations, the latest %v of backend time ago, NodeAddressTTL %v)", i, c.Backend, short(id), node, oo.Res, short(a), short(ai.addr), ai.node, ai.n, ai.ff, addrTTL))
 				}
 			default:
 				out.Judged++
@@ -591,6 +646,220 @@ func expOf(ri *regInfo) int64 {
 		return -1
 	}
 	return ri.expires
+}
+
+// ---------------------------------------------------------------------------------------------
+// the registration / removal CALL SITES: SessionManager.startSourceBridge / runBridgeLifecycle (server_bridge.go) with
+// the routing table installed.  A source bridge is started on node A by the real code and ended in one of the ways a
+// tunnel ends; while it waits the id must resolve on every node to node A with the mapping's data, after the
+// lifecycle ended it must not resolve on any node.
+// ---------------------------------------------------------------------------------------------
+
+type fakeCloud struct{ m map[string]*models.PortMapping }
+
+func (f *fakeCloud) GetPortMapping(id string) (*models.PortMapping, error) {
+	if m, ok := f.m[id]; ok {
+		cp := *m
+		return &cp, nil
+	}
+	return nil, fmt.Errorf("mapping %s not found", id)
+}
+func (f *fakeCloud) UpdatePortMappingStats(string, *models.TrafficStats) error { return nil }
+func (f *fakeCloud) GetClientPortMappings(int64) ([]*models.PortMapping, error) { return nil, nil }
+func (f *fakeCloud) TouchClient(int64)                                          {}
+func (f *fakeCloud) DisconnectClient(int64) error                               { return nil }
+func (f *fakeCloud) DisconnectClientIfMatch(int64, string, string) (bool, error) {
+	return false, nil
+}
+func (f *fakeCloud) EnsureClientOnline(int64, string, string, string, string, string) error {
+	return nil
+}
+
+type bridgeOut struct {
+	Stream  string   `json:"stream"`
+	Backend string   `json:"backend"`
+	Way     string   `json:"way"`
+	PropOK  bool     `json:"prop_ok"`
+	PropKey string   `json:"prop_key,omitempty"`
+	PropMsg string   `json:"prop_msg,omitempty"`
+	FailAt  int      `json:"fail_at"`
+	Events  []string `json:"events"`
+	Obs     []opOut  `json:"obs"`
+	Judged  int      `json:"judged"`
+	Amb     int      `json:"ambiguous"`
+	EndMs   int64    `json:"lifecycle_end_ms"` // how long after the ending event the bridge left the index
+}
+
+func runBridge(c caseIn) *bridgeOut {
+	out := &bridgeOut{Stream: "bridge", Backend: c.Backend, Way: c.Way, PropOK: true, FailAt: -1, Obs: []opOut{}, Events: []string{}}
+	fail := func(key, msg string) {
+		if out.PropOK {
+			out.PropOK, out.PropKey, out.PropMsg, out.FailAt = false, key, msg, len(out.Events)
+		}
+	}
+	ev := func(f string, a ...interface{}) { out.Events = append(out.Events, fmt.Sprintf(f, a...)) }
+	c.Nodes = 2
+	w := newWorld(c)
+	defer w.close()
+	bg := context.Background()
+	ctxA, cancelA := context.WithCancel(bg)
+	defer cancelA()
+	r := c.Rec
+	tid, mid, secret := string(unhx(r.Tunnel)), string(unhx(r.Mapping)), string(unhx(r.Secret))
+	cloud := &fakeCloud{m: map[string]*models.PortMapping{
+		mid:          {ID: mid, ListenClientID: r.Src, TargetClientID: r.Dst, TargetHost: string(unhx(r.Host)), TargetPort: int(r.Port), Protocol: "tcp", SecretKey: "mapping-key"},
+		mid + "-dup": {ID: mid + "-dup", ListenClientID: r.Src + 1, TargetClientID: r.Dst + 1, TargetHost: "dup-host", TargetPort: 1, Protocol: "tcp"},
+	}}
+	sm := session.NewSessionManager(idgen.NewIDManager(memory.New(ctxA), ctxA), ctxA)
+	sm.SetNodeID("node-a")
+	sm.SetCloudControl(cloud)
+	sm.SetTunnelRoutingTable(w.tables[0])
+	views := []*tunnel.RoutingTable{w.tables[0], w.tables[1]}
+	want := tunnel.WaitingState{TunnelID: tid, MappingID: mid, SecretKey: secret, SourceNodeID: "node-a",
+		SourceClientID: r.Src, TargetClientID: r.Dst, TargetHost: string(unhx(r.Host)), TargetPort: int(r.Port)}
+
+	resolves := func(v int) (*tunnel.WaitingState, error) { return views[v].LookupWaitingTunnel(bg, tid) }
+	mustWait := func(when string) {
+		for v := range views {
+			got, err := resolves(v)
+			out.Judged++
+			if err != nil {
+				fail("bridge-waiting-not-routable", fmt.Sprintf("%s on %s: tunnel %s started by startSourceBridge on node-a is not routable from node %d %s: %v", c.Way, c.Backend, short(tid), v, when, err))
+			} else if f, d := fieldDiff(&want, got); f != "" {
+				fail("bridge-registration-"+f, fmt.Sprintf("%s on %s: the record registered by startSourceBridge has a different %s %s: expected vs got %s", c.Way, c.Backend, f, when, d))
+			}
+		}
+	}
+	mustBeGone := func(when string) {
+		// RemoveWaitingTunnel follows the removal from the bridge index by a few instructions: poll briefly
+		deadline := time.Now().Add(2 * time.Second)
+		for v := range views {
+			for {
+				got, err := resolves(v)
+				if err != nil {
+					if err != tunnel.ErrNotFound && err != tunnel.ErrExpired {
+						fail("lookup-error-not-sentinel", fmt.Sprintf("%s on %s: lookup %s failed with %v", c.Way, c.Backend, when, err))
+					}
+					break
+				}
+				if time.Now().After(deadline) {
+					fail("stale-after-tunnel-end-"+c.Way, fmt.Sprintf("%s on %s: the tunnel %s ended on node-a (%s) but 2 s later the id still resolves from node %d to %q (ExpiresAt in %v)", c.Way, c.Backend, short(tid), when, v, got.SourceNodeID, time.Until(got.ExpiresAt).Round(time.Millisecond)))
+					break
+				}
+				time.Sleep(5 * time.Millisecond)
+			}
+			out.Judged++
+		}
+	}
+	waitEnded := func(limit time.Duration) bool {
+		t0 := time.Now()
+		for session.VerifBridge(sm, tid) != nil {
+			if time.Since(t0) > limit {
+				fail("bridge-lifecycle-stuck", fmt.Sprintf("%s on %s: the bridge of %s is still indexed %v after the ending event", c.Way, c.Backend, short(tid), limit))
+				return false
+			}
+			time.Sleep(2 * time.Millisecond)
+		}
+		out.EndMs = time.Since(t0).Milliseconds()
+		return true
+	}
+
+	if _, err := resolves(1); err == nil {
+		fail("lookup-unregistered", "the id resolves before any bridge was started")
+	}
+	srvSide, cliSide := net.Pipe()
+	defer srvSide.Close()
+	defer cliSide.Close()
+	if err := session.VerifStartSourceBridge(sm, tid, mid, secret, srvSide); err != nil {
+		fail("bridge-start-failed", fmt.Sprintf("startSourceBridge(%s) failed: %v", short(tid), err))
+		return out
+	}
+	ev("started")
+	mustWait("while waiting")
+	b := session.VerifBridge(sm, tid)
+	if b == nil {
+		fail("bridge-not-indexed", "startSourceBridge returned nil but the bridge is not indexed")
+		return out
+	}
+	limit := 5 * time.Second
+	switch c.Way {
+	case "abort":
+		// the source goes away before a target attached: the bridge is closed while Start() still waits
+		b.Close()
+		ev("bridge closed before target attached")
+	case "cancel":
+		cancelA()
+		ev("session manager context cancelled")
+	case "timeout":
+		// nobody attaches: Start() gives up after its own 30 s wait (the table ttl of this case is longer)
+		limit = 40 * time.Second
+		ev("waiting for the Start timeout")
+	case "duplicate":
+		s2, c2 := net.Pipe()
+		err := session.VerifStartSourceBridge(sm, tid, mid+"-dup", "other-secret", s2)
+		s2.Close()
+		c2.Close()
+		if err == nil {
+			fail("bridge-duplicate-accepted", fmt.Sprintf("a second startSourceBridge for the waiting tunnel %s was accepted", short(tid)))
+		}
+		ev("duplicate start: %v", err)
+		mustWait("after a rejected duplicate start")
+		if session.VerifBridge(sm, tid) != b {
+			fail("bridge-duplicate-replaced", "the rejected duplicate start replaced the indexed bridge")
+		}
+		b.Close()
+		ev("bridge closed")
+	case "complete", "restart":
+		tsrv, tcli := net.Pipe()
+		defer tsrv.Close()
+		defer tcli.Close()
+		session.VerifAttachTarget(b, "target-conn", tsrv, r.Dst, mid, tid)
+		ev("target attached")
+		done := make(chan string, 1)
+		go func() {
+			buf := make([]byte, 4)
+			tcli.SetReadDeadline(time.Now().Add(3 * time.Second))
+			if _, err := io.ReadFull(tcli, buf); err != nil {
+				done <- "read: " + err.Error()
+				return
+			}
+			done <- string(buf)
+		}()
+		cliSide.SetWriteDeadline(time.Now().Add(3 * time.Second))
+		if _, err := cliSide.Write([]byte("ping")); err != nil {
+			ev("source write: %v", err)
+		}
+		if got := <-done; got != "ping" {
+			fail("bridge-forward", fmt.Sprintf("bytes written by the source did not reach the attached target: %s", got))
+		}
+		cliSide.Close() // the source hangs up: forwarding ends, Start() returns nil
+		ev("source closed after forwarding")
+	default:
+		panic("unknown way " + c.Way)
+	}
+	if !waitEnded(limit) {
+		return out
+	}
+	ev("lifecycle ended after %d ms", out.EndMs)
+	mustBeGone("way " + c.Way)
+	if c.Way == "restart" && out.PropOK {
+		// the same id can wait again after its first life ended, and ends again
+		s3, c3 := net.Pipe()
+		defer s3.Close()
+		defer c3.Close()
+		if err := session.VerifStartSourceBridge(sm, tid, mid, secret, s3); err != nil {
+			fail("bridge-restart-failed", fmt.Sprintf("startSourceBridge(%s) after the first life ended failed: %v", short(tid), err))
+			return out
+		}
+		mustWait("after a restart")
+		if b3 := session.VerifBridge(sm, tid); b3 != nil {
+			b3.Close()
+		}
+		if waitEnded(5 * time.Second) {
+			mustBeGone("restart, second life aborted")
+		}
+	}
+	return out
 }
 
 // ---------------------------------------------------------------------------------------------
@@ -747,6 +1016,74 @@ func nlists(ss []string) string {
 	return "[\n" + strings.Join(parts, ";\n") + "\n]"
 }
 
+// refreshInterval evaluates `refreshInterval := <n> * time.<Unit>` of the goroutine that keeps the node address alive
+// (internal/app/server/components_session.go) from the working tree's source (go/parser, no regexes)
+func refreshInterval() time.Duration {
+	repo := os.Getenv("VERIF_REPO")
+	if repo == "" {
+		repo = "/repo"
+	}
+	fs := token.NewFileSet()
+	f, err := parser.ParseFile(fs, filepath.Join(repo, "internal/app/server/components_session.go"), nil, 0)
+	must(err)
+	unit := func(e ast.Expr) time.Duration {
+		if sel, ok := e.(*ast.SelectorExpr); ok {
+			if x, ok := sel.X.(*ast.Ident); ok && x.Name == "time" {
+				switch sel.Sel.Name {
+				case "Hour":
+					return time.Hour
+				case "Minute":
+					return time.Minute
+				case "Second":
+					return time.Second
+				case "Millisecond":
+					return time.Millisecond
+				}
+			}
+		}
+		return 0
+	}
+	var eval func(e ast.Expr) time.Duration
+	eval = func(e ast.Expr) time.Duration {
+		switch v := e.(type) {
+		case *ast.ParenExpr:
+			return eval(v.X)
+		case *ast.BasicLit:
+			var n int64
+			fmt.Sscan(v.Value, &n)
+			return time.Duration(n)
+		case *ast.BinaryExpr:
+			if v.Op == token.MUL {
+				return eval(v.X) * eval(v.Y)
+			}
+		case *ast.SelectorExpr:
+			return unit(v)
+		}
+		panic("refreshInterval: expression not understood")
+	}
+	var found time.Duration
+	refreshes := false
+	ast.Inspect(f, func(n ast.Node) bool {
+		switch v := n.(type) {
+		case *ast.AssignStmt:
+			if len(v.Lhs) == 1 && len(v.Rhs) == 1 {
+				if id, ok := v.Lhs[0].(*ast.Ident); ok && id.Name == "refreshInterval" {
+					found = eval(v.Rhs[0])
+				}
+			}
+		case *ast.CallExpr:
+			if sel, ok := v.Fun.(*ast.SelectorExpr); ok && sel.Sel.Name == "RegisterNodeAddress" {
+				refreshes = true
+			}
+		}
+		return true
+	})
+	if found <= 0 || !refreshes {
+		panic("components_session.go: the node-address refresh goroutine (refreshInterval / RegisterNodeAddress) was not found")
+	}
+	return found
+}
+
 func gen() {
 	ctx := context.Background()
 	rs := &recStore{Storage: memory.New(ctx)}
@@ -802,6 +1139,7 @@ func gen() {
 	fmt.Printf("Definition ShapeIdentRedis : bool := %v.\n", shape("redis"))
 	fmt.Printf("Definition ShapeIdentHybridShared : bool := %v.\n", shape("hybrid"))
 	fmt.Printf("Definition ShapeIdentHybridLocal : bool := %v.\n", shape("hybridone"))
+	fmt.Printf("Definition AddrRefreshIntervalNs : N := %d. (* components_session.go: refreshInterval of the node-address refresh goroutine *)\n", int64(refreshInterval()))
 	fmt.Printf("Definition LookupDeletesExpired : bool := %v.\n", deletes)
 	fmt.Printf("Definition PollInitialNs : N := %d.\nDefinition PollMaxNs : N := %d.\nDefinition PollFactor : N := %d.\n", int64(pi), int64(pm), pf)
 }
@@ -842,6 +1180,8 @@ func main() {
 			defer func() { <-sem }()
 			if c.Stream == "probe" {
 				results[i] = runProbe(c)
+			} else if c.Stream == "bridge" {
+				results[i] = runBridge(c)
 			} else {
 				results[i] = runCase(c)
 			}
